@@ -44,7 +44,12 @@ def run(gen_text, workdir, maxlen=None):
         line = [l for l in r.stdout.split("\n") if l.startswith("DIGEST")]
         res.append(line[-1] if line else "none:" + r.stdout[-200:])
     out.update({"max_len": ml, "alphabet": n, "original": res[0], "rewritten": res[1], "runs": res[0].split("\t")[1] if "\t" in res[0] else None})
-    out["status"] = "same" if res[0] == res[1] and res[0].startswith("DIGEST") else "different"
+    if not (res[0].startswith("DIGEST") and res[1].startswith("DIGEST")):
+        # a build did not get through the enumeration (the parser hangs on some input: the watchdog ends the
+        # process); the bounded stand-in reports that input, nothing can be compared here
+        out["status"] = "not_comparable"
+    else:
+        out["status"] = "same" if res[0] == res[1] else "different"
     return out
 
 
